@@ -1,12 +1,446 @@
-/-! Executable model for property C09 (core-only).  Not built yet: the driver answers
-    `unimplemented` so that a check of this property cannot pass by accident. -/
+import FpgoVerif.Model.C09Sys
+/-! C09 — line protocol on top of the transition system of `C09Sys.lean`.
+
+    `sched <cfg>: op ; op ; …`   directed schedules.  The harness drives the real pool through the ops (park
+        points of the `verif` build hold goroutines at the named windows); here the same ops are executed on
+        `step`: an op performs the caller's own steps, then a deterministic scheduler runs every enabled
+        internal step (spawn loop, workers, released submitters, closer) until nothing moves — a thread
+        reaching a park point with budget stays there.  The generator only emits confluent scenarios (the
+        quiescent state does not depend on the order of the internal steps), so one order predicts all.
+    `stress <params>`            free-running stress with monitors; the prediction is the summary of a
+        sequential run of the same job list on `step`.
+
+    cfg: max sb batch c b cq(1/0) jam(ms, 0 = never).  Job kinds: f fast, g gated, p<v> gated then panics
+    with v, q<v> panics at once.  Park points: sched wclosed afterjob exit expiry closeflag tryspawn. -/
 namespace FpgoVerif.C09
 
-/-- one protocol case line in, one canonical observation line out -/
-def handle (_line : String) : String := "unimplemented"
+inductive Kind | fast | gated | pgated (v : Nat) | pnow (v : Nat)
+deriving Repr, DecidableEq
 
-/-- spec-level oracle: given the case line and the observation printed by the real code, decide
-    whether the *property* is violated (`violation <why>`) or not (`allowed <why>`). -/
-def judge (_line _impl : String) : String := "violation model-and-implementation-disagree"
+structure Sim where
+  c : Cfg
+  s : St := {}
+  kinds : List Kind := []
+  names : List Nat := []             -- the case line's name of each job, in creation order
+  opened : List Nat := []            -- jobs whose gate was opened
+  budget : List (String × Nat) := [] -- park point ↦ arrivals still to be parked
+  parkedW : List (Nat × String) := [] -- (worker, point)
+  parkedS : List Nat := []           -- submissions parked at `sched`
+  parkedSp : Bool := false           -- spawn loop parked at `tryspawn`
+  parkedCl : Bool := false           -- closer parked at `closeflag`
+  asyncS : List Nat := []            -- submissions running in their own goroutine
+  asyncCl : Bool := false
+  jamMs : Nat := 0
+  jam : Bool := false                -- the jam duration has elapsed since the last sign of life
+  expiryArr : Nat := 0
+  expOn : Bool := false              -- a short expiry duration is in force (`exp:<ms>`)
+  armed : List Nat := []             -- workers that entered their select with the short timer
+
+def budgetOf (m : Sim) (pt : String) : Nat := ((m.budget.find? (·.1 == pt)).map (·.2)).getD 0
+def setBudget (m : Sim) (pt : String) (n : Nat) : Sim :=
+  { m with budget := (pt, n) :: m.budget.filter (·.1 != pt) }
+
+/-- a thread arrives at `pt`: does it park? (consumes budget) -/
+def arrive (m : Sim) (pt : String) : Sim × Bool :=
+  let n := budgetOf m pt
+  if n > 0 then (setBudget m pt (n - 1), true) else (m, false)
+
+def kindOf (m : Sim) (j : Nat) : Kind := (m.kinds[j]?).getD .fast
+def isOpen (m : Sim) (j : Nat) : Bool := m.opened.contains j
+def wParked (m : Sim) (w : Nat) : Bool := m.parkedW.any (·.1 == w)
+
+/-- the queue's Offer answers Full exactly when c+b items are inside (loader settled: the generator keeps
+    consumers away from the window) -/
+def settledFull (m : Sim) : Bool := m.s.queue.length ≥ m.c.chanCap + m.c.buf
+
+def app (m : Sim) (a : Act) : Option Sim := (step m.c m.s a).map fun t => { m with s := t }
+
+/-- one internal step of worker `w`, if any is enabled and the worker is not parked -/
+def workerStep (m : Sim) (w : Nat) : Option Sim :=
+  if wParked m w then none else
+  match m.s.workers[w]? with
+  | some .top =>
+    (app m (.wCheck w)).map fun m1 =>
+      let m1 := { m1 with jam := false, armed := if m1.expOn then w :: m1.armed.filter (· != w) else m1.armed.filter (· != w) }
+      match m1.s.workers[w]? with
+      | some WPc.sel => let (m2, p) := arrive m1 "wclosed"; if p then { m2 with parkedW := (w, "wclosed") :: m2.parkedW } else m2
+      | _ => m1
+  | some .sel =>
+    match m.s.queue with
+    | _ :: _ => app m (.wRecv w)
+    | [] => if m.s.qclosed then app m (.wNil w) else none
+  | some (.got _) => app m (.wStart w)
+  | some (.run j) =>
+    match kindOf m j with
+    | .fast =>
+      (app m (.wFinish w)).map fun m1 =>
+        let (m2, p) := arrive m1 "afterjob"; if p then { m2 with parkedW := (w, "afterjob") :: m2.parkedW } else m2
+    | .gated =>
+      if isOpen m j then
+        (app m (.wFinish w)).map fun m1 =>
+          let (m2, p) := arrive m1 "afterjob"; if p then { m2 with parkedW := (w, "afterjob") :: m2.parkedW } else m2
+      else none
+    | .pgated v => if isOpen m j then app m (.wPanic w v) else none
+    | .pnow v => app m (.wPanic w v)
+  | some (.aft _) => app m (.wBusyDec w)
+  | some (.pan _ _) => app m (.wHandler w)
+  | some (.exitDec _) =>
+    (app m (.wExitDec w)).map fun m1 =>
+      let (m2, p) := arrive m1 "exit"; if p then { m2 with parkedW := (w, "exit") :: m2.parkedW } else m2
+  | some .exitTok => app m (.wExitTok w)
+  | _ => none
+
+def firstWorkerStep (m : Sim) : Nat → Nat → Option Sim
+  | _, 0 => none
+  | w, n + 1 => match workerStep m w with
+    | some m1 => some m1
+    | none => firstWorkerStep m (w + 1) n
+
+def spStep (m : Sim) : Option Sim :=
+  match m.s.sp with
+  | .wait => app m .spWake
+  | .awake => app m .spCheck
+  | .cnt1 => app m .spCnt1
+  | .cnt2 _ =>
+    (app m (.spCnt2 m.jam)).map fun m1 =>
+      let (m2, p) := arrive m1 "tryspawn"; if p then { m2 with parkedSp := true } else m2
+  | .computed _ => if m.parkedSp then none else app m .spRead
+  | .loop _ _ =>
+    (app m .spGen).map fun m1 => if m1.s.workers.length > m.s.workers.length then { m1 with jam := false } else m1
+  | .sleep => app m .spSleep
+  | .exited => none
+
+def subStep (m : Sim) (i : Nat) : Option Sim :=
+  if m.parkedS.contains i then none else
+  match m.s.subs[i]? with
+  | some sb =>
+    match sb.pc with
+    | .check =>
+      (app m (.sCheck i)).map fun m1 =>
+        match (m1.s.subs[i]?).map (·.pc) with
+        | some SPc.offer => let (m2, p) := arrive m1 "sched"; if p then { m2 with parkedS := i :: m2.parkedS } else m2
+        | _ => m1
+    | .offer => app m (.sOffer i (settledFull m && !m.s.qclosed))
+    | .token _ => app m (.sToken i)
+    | .lcheck => app m (.sLoopCheck i)
+    | .dcheck => (app m (.deadline i)).bind fun m1 => app m1 (.sDeadline i)
+    | .fin _ => none
+  | none => none
+
+def firstSubStep (m : Sim) : List Nat → Option Sim
+  | [] => none
+  | i :: is => match subStep m i with
+    | some m1 => some m1
+    | none => firstSubStep m is
+
+def closerStep (m : Sim) : Option Sim :=
+  if m.asyncCl && !m.parkedCl && m.s.cl == 1 then app m (.closeQueue (min m.s.queue.length m.c.chanCap)) else none
+
+/-- run internal steps until nothing moves -/
+def quiesce : Nat → Sim → Sim
+  | 0, m => m
+  | fuel + 1, m =>
+    match closerStep m with
+    | some m1 => quiesce fuel m1
+    | none =>
+      match firstSubStep m m.asyncS with
+      | some m1 => quiesce fuel m1
+      | none =>
+        match spStep m with
+        | some m1 => quiesce fuel m1
+        | none =>
+          match firstWorkerStep m 0 m.s.workers.length with
+          | some m1 => quiesce fuel m1
+          | none => m
+
+def fuel0 : Nat := 20000
+
+def showRes : Res → String
+  | .ok => "ok" | .full => "full" | .poolClosed => "closed" | .queueClosed => "qclosed" | .timeout => "timeout"
+
+def resOf (m : Sim) (i : Nat) : String :=
+  match (m.s.subs[i]?).map (·.pc) with
+  | some (SPc.fin r) => showRes r
+  | _ => "pending"
+
+/-- run submission `i` in the caller's thread until it returns (or parks) -/
+def runSub : Nat → Sim → Nat → Sim
+  | 0, m, _ => m
+  | fuel + 1, m, i => match subStep m i with
+    | some m1 => runSub fuel m1 i
+    | none => m
+
+def parseKind (s : String) : Kind :=
+  if s == "f" then .fast
+  else if s == "g" then .gated
+  else if s.startsWith "p" then .pgated ((s.drop 1).toString.toNat!)
+  else if s.startsWith "q" then .pnow ((s.drop 1).toString.toNat!)
+  else .fast
+
+def insertSorted (x : Nat × Nat) : List (Nat × Nat) → List (Nat × Nat)
+  | [] => [x]
+  | y :: l => if x.1 < y.1 || (x.1 == y.1 && x.2 ≤ y.2) then x :: y :: l else y :: insertSorted x l
+
+def showState (m : Sim) : String :=
+  let n := m.s.subs.length
+  let runs := String.join ((List.range n).map fun j => toString (min 9 (m.s.started.count j)))
+  let han := (m.s.handlerLog.foldl (fun acc x => insertSorted x acc) []).map fun (j, v) => s!"{j}:{v}"
+  s!"n={m.s.count}/{m.s.busy} run={runs} fin={m.s.finished.length} han=[{",".intercalate han}] g=ok"
+
+def newSub (m : Sim) (timed : Bool) (name : Nat) (k : Kind) : Sim × Nat :=
+  let i := m.s.subs.length
+  match app m (.submit timed) with
+  | some m1 => ({ m1 with kinds := m1.kinds ++ [k], names := m1.names ++ [name] }, i)
+  | none => (m, i)
+
+def idxGo (name : Nat) : List Nat → Nat → Option Nat
+  | [], _ => none
+  | x :: xs, i => if x == name then some i else idxGo name xs (i + 1)
+
+/-- index of the (first) job the case line calls `name` -/
+def idxOf (m : Sim) (name : Nat) : Option Nat := idxGo name m.names 0
+
+/-- one op: (new simulator state, observation) -/
+def doOp (m : Sim) (tok : String) : Sim × String :=
+  match tok.splitOn ":" with
+  | ["s", k, kind] =>
+    let (m1, i) := newSub m false k.toNat! (parseKind kind)
+    let m2 := quiesce fuel0 (runSub 100 m1 i)
+    (m2, s!"s{k}={resOf m2 i}")
+  | ["t", k, kind] =>
+    let (m1, i) := newSub m true k.toNat! (parseKind kind)
+    let m2 := quiesce fuel0 (runSub 100 m1 i)
+    (m2, s!"t{k}={resOf m2 i}")
+  | ["i", k, kind] =>
+    let (m1, i) := newSub m false k.toNat! (parseKind kind)
+    let m2 := quiesce fuel0 (runSub 100 m1 i)
+    (m2, s!"i{k}")
+  | ["as", k, kind] =>
+    let (m1, i) := newSub m false k.toNat! (parseKind kind)
+    let m2 := quiesce fuel0 { m1 with asyncS := m1.asyncS ++ [i] }
+    (m2, s!"as{k}=" ++ (if m2.parkedS.contains i then "parked" else "notparked"))
+  | ["j", k] =>
+    match idxOf m k.toNat! with
+    | some i => if m.asyncS.contains i then (m, s!"j{k}={resOf m i}") else (m, s!"j{k}=pending")
+    | none => (m, s!"j{k}=pending")
+  | ["r", k] =>
+    match idxOf m k.toNat! with
+    | some i => let m1 := quiesce fuel0 { m with opened := i :: m.opened }; (m1, s!"r{k}")
+    | none => (m, s!"r{k}")
+  | ["w", _] => let m1 := quiesce fuel0 m; (m1, showState m1)
+  | ["park", pt, n] => (setBudget m pt n.toNat!, "park")
+  | ["wp", pt, _] =>
+    let cnt := (m.parkedW.filter (·.2 == pt)).length + (if pt == "sched" then m.parkedS.length else 0) +
+      (if pt == "tryspawn" && m.parkedSp then 1 else 0) + (if pt == "closeflag" && m.parkedCl then 1 else 0)
+    (m, s!"wp={cnt}")
+  | ["rel", pt] =>
+    let m1 := setBudget m pt 0
+    let m1 := { m1 with parkedW := m1.parkedW.filter (·.2 != pt) }
+    let m1 := if pt == "sched" then { m1 with parkedS := [] } else m1
+    let m1 := if pt == "tryspawn" then { m1 with parkedSp := false } else m1
+    let m1 := if pt == "closeflag" then { m1 with parkedCl := false } else m1
+    (quiesce fuel0 m1, "rel")
+  | ["close"] =>
+    if m.s.cl != 0 then (m, "close") else
+    match app m .closeFlag with
+    | some m1 =>
+      let (m1, _) := arrive m1 "closeflag"
+      match app m1 (.closeQueue (min m1.s.queue.length m1.c.chanCap)) with
+      | some m2 => (quiesce fuel0 m2, "close")
+      | none => (m1, "close")
+    | none => (m, "close")
+  | ["aclose"] =>
+    match app m .closeFlag with
+    | some m1 =>
+      let (m2, p) := arrive m1 "closeflag"
+      let m3 := quiesce fuel0 { m2 with asyncCl := true, parkedCl := p }
+      (m3, "aclose=" ++ (if p then "parked" else "notparked"))
+    | none => (m, "aclose=notparked")
+  | ["jclose"] => (m, "jclose=" ++ (if m.s.cl == 2 then "done" else "pending"))
+  | ["pre", n] =>
+    let target := n.toNat!
+    let m1 := (List.range (target - m.s.count)).foldl (fun acc _ =>
+      match app acc (.gen target) with
+      | some a => if a.s.workers.length > acc.s.workers.length then { a with jam := false } else a
+      | none => acc) m
+    (quiesce fuel0 m1, "pre")
+  | ["exp", ms] => ({ m with expOn := ms.toNat! > 0 && ms.toNat! < 1000 }, "exp")
+  | ["sleep", ms] =>
+    let m1 := if m.jamMs > 0 && ms.toNat! ≥ 2 * m.jamMs then { m with jam := true } else m
+    (m1, "sleep")
+  | ["expire", _] =>
+    -- one expiry round over the idle workers, in index order
+    let m1 := (List.range m.s.workers.length).foldl (fun acc w =>
+      if wParked acc w || !acc.armed.contains w then acc else
+      match acc.s.workers[w]? with
+      | some .sel =>
+        match app acc (.wExpire w) with
+        | some a =>
+          if a.s.workers[w]? == some .gone then
+            let a := { a with expiryArr := a.expiryArr + 1 }
+            let (a1, p) := arrive a "expiry"
+            if p then a1 else (arrive a1 "exit").1
+          else { a with jam := false }
+        | none => acc
+      | _ => acc) m
+    let m2 := quiesce fuel0 m1
+    (m2, s!"expire={m2.expiryArr}")
+  | _ => (m, "bad-op")
+
+def cfgVal (toks : List String) (key : String) (dflt : Nat) : Nat :=
+  match toks.find? (fun t => t.startsWith (key ++ "=")) with
+  | some t => ((t.drop (key.length + 1)).toString.toNat?).getD dflt
+  | none => dflt
+
+def cfgList (toks : List String) (key : String) : List Nat :=
+  match toks.find? (fun t => t.startsWith (key ++ "=")) with
+  | some t => (((t.drop (key.length + 1)).toString.splitOn ",").filterMap (·.toNat?))
+  | none => []
+
+def mkCfg (toks : List String) : Cfg :=
+  { max := cfgVal toks "max" 1, standby := cfgVal toks "sb" 1, batch := cfgVal toks "batch" 0,
+    chanCap := cfgVal toks "c" 1, buf := cfgVal toks "b" 0, closeQueue := cfgVal toks "cq" 1 == 1,
+    atomicExpiry := cfgVal toks "fixed" 1 == 1 }
+
+/-- the pool as the harness builds it: the last setter calls notifyWorkers, the spawn loop brings the pool
+    to its standby size -/
+def startPool (m : Sim) : Sim := quiesce fuel0 ((app m .notify).getD m)
+
+def trimS (s : String) : String := s.trimAscii.toString
+
+def runSched (head body : String) : String :=
+  let toks := (head.splitOn " ").filter (· ≠ "")
+  let m0 : Sim := startPool { c := mkCfg toks, jamMs := cfgVal toks "jam" 0 }
+  let ops := ((body.splitOn ";").map trimS).filter (· ≠ "")
+  let (_, outs) := ops.foldl (fun (acc : Sim × List String) t =>
+    let (m, o) := doOp acc.1 t
+    (m, o :: acc.2)) (m0, [])
+  " | ".intercalate outs.reverse
+
+/-- stress prediction: submit the n jobs one after the other on `step` (all gates open), let the pool run to
+    quiescence, and summarise the final state -/
+def runStress (line : String) : String :=
+  let toks := (line.splitOn " ").filter (· ≠ "")
+  let n := cfgVal toks "n" 0
+  if cfgVal toks "tiny" 0 == 1 then "ok acc=* ran=acc han=pan closed=ok" else
+  let pans := cfgList toks "pan"
+  let m0 : Sim := startPool { c := mkCfg toks }
+  let m := (List.range n).foldl (fun acc j =>
+    let k : Kind := if pans.contains j then .pnow (j % 97 + 1) else .fast
+    let (m1, i) := newSub acc false j k
+    quiesce fuel0 (runSub 100 m1 i)) m0
+  let okAll := (List.range n).all fun j => m.s.started.count j == 1
+  if okAll then s!"ok acc={m.s.accepted.length} ran={m.s.finished.length} han={m.s.handlerLog.length} closed=ok"
+  else "model-incomplete"
+
+/-- protocol entry point -/
+def handle (line : String) : String :=
+  if line.startsWith "sched " then
+    match (line.drop 6).toString.splitOn ": " with
+    | [head, body] => runSched head body
+    | [head] => runSched head ""
+    | _ => "bad-line"
+  else if line.startsWith "stress " then runStress (line.drop 7).toString
+  else "bad-line"
+
+/-! ### spec-level judge
+
+    Evaluates the property's own statement on the implementation's observation.  A token of the observation
+    that differs from the prediction is a violation when it is about something the property fixes: a
+    monitor report (`viol …`), a hang or crash, a Schedule* answer, a job that ran twice, a rejected job that
+    ran, an accepted job that did not run within the grace period although the pool was never closed, the
+    handler log (`han=`), the concurrency gauge (`g=`).  Other differences (the counters workerCount /
+    workerBusy, a job running earlier than predicted, park bookkeeping) are not statements of the property:
+    `allowed` (the check then reports `no-failing-input-found`). -/
+def field (obs key : String) : String :=
+  match ((obs.splitOn " ").filter (·.startsWith (key ++ "="))) with
+  | t :: _ => (t.drop (key.length + 1)).toString
+  | [] => ""
+
+def hasSub (s sub : String) : Bool := (s.splitOn sub).length > 1
+
+/-- answers of the implementation per job position (creation order): true = the call returned an error -/
+def rejectedPositions (ops : List String) (imps : List String) : List Bool :=
+  ((ops.zip imps).filter (fun (o, _) => o.startsWith "s:" || o.startsWith "t:" || o.startsWith "i:" || o.startsWith "as:")).map
+    fun (_, i) => match i.splitOn "=" with
+      | [_, r] => r != "ok" && r != "parked" && r != "notparked"
+      | _ => false
+
+/-- the case leaves nothing held back at its end: every gated job was released, every park point released,
+    the pool never closed — only then "an accepted job has not run" is a statement about the pool -/
+def caseComplete (ops : List String) : Bool :=
+  let gatedNames := ops.filterMap fun o => match o.splitOn ":" with
+    | [c, k, kind] => if (c == "s" || c == "t" || c == "i" || c == "as") && (kind == "g" || kind.startsWith "p") then some k else none
+    | _ => none
+  let released := ops.filterMap fun o => match o.splitOn ":" with
+    | ["r", k] => some k
+    | _ => none
+  let parks := ops.filterMap fun o => match o.splitOn ":" with
+    | ["park", pt, _] => some pt
+    | _ => none
+  let rels := ops.filterMap fun o => match o.splitOn ":" with
+    | ["rel", pt] => some pt
+    | _ => none
+  gatedNames.all released.contains && parks.all rels.contains &&
+    !(ops.any fun o => o == "close" || o == "aclose")
+
+def runVerdict (closedCase : Bool) (rej : List Bool) (exp imp : String) : Option String :=
+  let es := exp.toList
+  let is := imp.toList
+  if is.any (fun d => d != '0' && d != '1') then some s!"a job ran more than once (run counts {imp})"
+  else
+    let bad := ((es.zip is).zip (rej ++ List.replicate es.length false)).filterMap fun ((e, i), r) =>
+      if i == '1' && r then some s!"a rejected job ran (run counts {imp})"
+      else if e == '1' && i == '0' && !closedCase then
+        some s!"an accepted job did not run within the grace period although the pool is open (run counts {imp}, prescribed {exp})"
+      else none
+    bad.head?
+
+def judgeTok (closedCase overlap : Bool) (rej : List Bool) (exp imp : String) : Option String :=
+  if exp == imp then none
+  else if imp.startsWith "n=" && exp.startsWith "n=" then
+    match runVerdict closedCase rej (field exp "run") (field imp "run") with
+    | some why => some why
+    | none =>
+      if field imp "han" != field exp "han" && !closedCase then
+        some s!"panic handler log {field imp "han"}, the property prescribes {field exp "han"}"
+      else if field imp "g" != "ok" then some s!"more than workerSizeMaximum jobs executing at once: gauge {field imp "g"}"
+      else none
+  else if imp.startsWith "s" || imp.startsWith "t" || imp.startsWith "j" then
+    -- a call overlapping a Close that has not returned may be answered either way
+    let r := ((imp.splitOn "=").drop 1).headD ""
+    if overlap && (r == "ok" || r == "closed" || r == "qclosed") then none
+    else some s!"answer {imp}, the property prescribes {exp}"
+  else none
+
+def judge (line impl : String) : String :=
+  let exp := handle line
+  if impl == exp then "allowed agrees with the model"
+  else if hasSub impl "viol" then s!"violation monitor: {impl}"
+  else if impl == "hang" || impl == "crash" || impl == "panic" then s!"violation the pool {impl}s (a job or the harness never returns / the process dies)"
+  else if line.startsWith "stress " then
+    if impl.startsWith "note" then "allowed worker bookkeeping differs (not a statement of the property): " ++ impl
+    else s!"violation stress summary {impl}, the property prescribes {exp}"
+  else
+    let body := (((line.drop 6).toString.splitOn ": ").drop 1).headD ""
+    let ops := ((body.splitOn ";").map trimS).filter (· ≠ "")
+    let closedCase := ops.any (fun o => o == "close" || o == "aclose")
+    let es := (exp.splitOn " | ")
+    let is := (impl.splitOn " | ")
+    if es.length != is.length then s!"violation observation has {is.length} entries for {es.length} operations"
+    else
+      let rej := rejectedPositions ops is
+      -- "not run" is decided on the final observation of a case that holds nothing back; earlier
+      -- observations and incomplete cases are judged as if the pool were still busy (closedCase = true)
+      let lastN := (List.range es.length).foldl (fun acc k => if (es[k]?.getD "").startsWith "n=" then k else acc) es.length
+      let strict := caseComplete ops
+      let idx (name : String) : Nat := (List.range ops.length).foldl (fun acc k => if (ops[k]?.getD "") == name && acc == ops.length then k else acc) ops.length
+      let a := idx "aclose"
+      let b := idx "jclose"
+      match ((List.range es.length).zip (es.zip is)).filterMap
+          (fun (k, (e, i)) => judgeTok (closedCase || !(strict && k == lastN))
+            ((a < k && k < b) || (ops[k]?.getD "").startsWith "j:") rej e i) with
+      | why :: _ => s!"violation {why}"
+      | [] => "allowed differs only in worker / park bookkeeping or timing the property does not fix"
 
 end FpgoVerif.C09
